@@ -2,7 +2,7 @@
 From Coq Require Import List NArith Bool Arith Lia.
 From SNT Require Import Base.Outcome Automata.Regex Automata.NFA Automata.Build Automata.Compile
   Automata.PathLemmas Automata.BuildLeaves Automata.BuildProofs Automata.CompileSpec
-  Automata.CompileProofs Automata.BuildKeys.
+  Automata.CompileProofs Automata.BuildKeys Automata.BuildTags.
 Import ListNotations.
 
 Theorem main_matches (e : regex) (fuel cf : nat) (d : dfa) :
@@ -40,4 +40,17 @@ Proof.
     + intros Ht c w Hmatch. destruct (Hterm Ht) as [_ Hno].
       apply build_accepts in Hmatch. apply (Hno c w (stop (build e))). exact Hmatch.
   - intros w Hmatch. apply build_accepts in Hmatch. apply (dead_no_ext _ _ _ Hm Hmatch).
+Qed.
+
+(* tags reported after a string = tags of the alternatives matching it *)
+Theorem main_tags (e : regex) (fuel cf : nat) (d : dfa) :
+  tagwf e = true -> compile fuel cf (build e) = Ok d ->
+  forall s k, bytes s -> transition_many d (dstart d) s = Ok (Some k) ->
+    exists i, info d k = Ok i /\ forall t, In t (dtags i) <-> tag_spec e s t.
+Proof.
+  intros Hwf E s k Hb Hr.
+  destruct (compile_correct fuel cf (build e) d (build_keys e) E s Hb) as [r [Hr' Hm]].
+  rewrite Hr in Hr'. inversion Hr'; subst r.
+  destruct Hm as [i [Hi [_ [_ [Htags _]]]]]. exists i. split; [exact Hi|].
+  intros t. rewrite Htags. apply (tags_correct e Hwf s t).
 Qed.
